@@ -114,11 +114,16 @@ def uninit(ctx, prog, pfx, units=None):
             continue
         names = reg_var_names(f)
         bad = []
+        confirmed = None
         for i in f.insns():
             if i.op in ('phi', 'dbg'):
                 continue
             for o in i.ops:
                 if o[0] == 'reg' and o[1] in may:
+                    if confirmed is None:
+                        confirmed = _feasible_undef_reads(f, may)
+                    if confirmed is not None and (id(i), o[1]) not in confirmed:
+                        continue        # only along paths that take both sides of one and the same test
                     bad.append('%s: local `%s` may be read before it is assigned' % (f.loc(i), names.get(o[1], o[1])))
             if i in direct:
                 bad.append('%s: uninitialised value used directly' % f.loc(i))
@@ -129,6 +134,91 @@ def uninit(ctx, prog, pfx, units=None):
            '%d undef operand(s) in the whole program, all confined to merge points that are never read' % nundef,
            evals=nfun, nontrivial=False)
     return nfun
+
+
+def _cond_root(f, v, depth=0):
+    """(register, polarity) a branch condition is a pure function of: casts, `!= 0`, `== 0`, `xor true` peeled"""
+    pol = True
+    while v[0] == 'reg' and depth < 12:
+        depth += 1
+        d = f.defs.get(v[1])
+        if d is None:
+            break
+        if d.op in ('zext', 'sext', 'trunc') and d.ops[0][0] == 'reg':
+            v = d.ops[0]
+            continue
+        if d.op == 'icmp' and d.extra['pred'] in ('ne', 'eq') and d.ops[1] in (('int', 0), ('zero',)) and d.ops[0][0] == 'reg':
+            if d.extra['pred'] == 'eq':
+                pol = not pol
+            v = d.ops[0]
+            continue
+        if d.op == 'xor' and d.ops[1] == ('int', 1) and d.ops[0][0] == 'reg' and d.ty == ('int', 1):
+            pol = not pol
+            v = d.ops[0]
+            continue
+        break
+    return (v[1], pol) if v[0] == 'reg' else None
+
+
+def _feasible_undef_reads(f, may, budget=20000):
+    """{(id(insn), reg)} of the reads of a may-be-undef register that lie on a path along which every SSA value
+    tested twice takes the same side both times (a test result is forgotten when its defining instruction runs
+    again).  None: search too large, no filtering."""
+    defblock = {}
+    for b in f.blocks.values():
+        for i in b.insns:
+            if i.res:
+                defblock[i.res] = b.name
+    found = set()
+    seen = set()
+    work = [(f.entry.name, None, frozenset(), frozenset())]
+    steps = 0
+    while work:
+        bn, prev, undef, dec = work.pop()
+        key = (bn, prev, undef, dec)
+        if key in seen:
+            continue
+        seen.add(key)
+        steps += 1
+        if steps > budget:
+            return None
+        b = f.blocks[bn]
+        # a value recomputed in this block is a new value: what was learnt about the old one is void
+        dec = frozenset((r, v) for r, v in dec if defblock.get(r) != bn)
+        und = set(undef)
+        newu = {}
+        for i in b.insns:
+            if i.op != 'phi':
+                continue
+            u = False
+            for v, src in i.extra['incoming']:
+                if src == prev:
+                    u = v[0] == 'undef' or (v[0] == 'reg' and v[1] in undef)
+            newu[i.res] = u
+        for r, u in newu.items():
+            (und.add if u else und.discard)(r)
+        for i in b.insns:
+            if i.op in ('phi', 'dbg'):
+                continue
+            for o in i.ops:
+                if o[0] == 'reg' and o[1] in und:
+                    found.add((id(i), o[1]))
+        t = b.term
+        und = frozenset(x for x in und if x in may)
+        if t.op == 'br' and len(t.extra['targets']) == 2 and t.ops:
+            root = _cond_root(f, t.ops[0])
+            if root is not None:
+                r, pol = root
+                known = dict(dec).get(r)
+                for side, tgt in ((True, t.extra['targets'][0]), (False, t.extra['targets'][1])):
+                    val = side == pol       # value of the root on this edge
+                    if known is not None and known != val:
+                        continue
+                    work.append((tgt, bn, und, frozenset(set(dec) | {(r, val)})))
+                continue
+        for tgt in dict.fromkeys(t.extra.get('targets', []) if t.op in ('br', 'switch') else []):
+            work.append((tgt, bn, und, dec))
+    return found
 
 
 def resume(ctx, prog, pfx):
